@@ -35,17 +35,18 @@ PROP = {
                'whose parameters are all completely defined by the standards (C06_semantics_wf: no truncated or out-of-range colour '
                'specification, no undefined sub-parameter such as 4:6 or 1:2, numbers of at most 19 digits) interleaved with text, and '
                'every chunking, the cells carry the faces of a reference SGR state machine written from ECMA-48 / xterm, provided none of '
-               '7/27/39/49 occurs; with those (known finding) the cells carry the faces of the same machine with these four parameters '
-               'as no-ops (C06_semantics_recorded), so the finding is pinned exactly and nothing is suppressed. Models tied to the code by '
-               'a differential run; tables and the automaton are regenerated each run.',
+               '7/27/39/49 occurs (known finding C06-inexpressible; the lemma C06_semantics_recorded pins the model to the reference machine '
+               'with these four parameters as no-ops). The run judges every history by the reference machine only: characters preserved '
+               'in order, faces on the longest well-formed prefix; a case of the known class is suppressed only if it is tagged and the '
+               'model reproduces the implementation. Models tied to the code by a differential run through the harness recorder, view::Text '
+               'and TerminalWriter as cell writers; tables and the automaton are regenerated each run.',
  'level_note': 'Trusted: Coq kernel + vm_compute; translate/c06gen.py and the verif-hooks DFA dump; hand-written models validated by the '
                'correspondence run; the reference SGR machine (Decoder/SgrRef.v) as the meaning of SGR. Known finding: parameters 7/27/39/49 '
-               '(inverse, default colours) cannot be expressed by FaceModify (repair = additive public-API change); decided in Coq against '
-               'the recorded behaviour, never suppressed. No axioms.',
+               '(inverse, default colours) cannot be expressed by FaceModify (repair = additive public-API change); class sgr-inexpressible with require_agree. No axioms.',
  'technique': 'Coq proof (induction over parameter lists and histories, reflection on the regenerated command automaton, finite sweeps '
               'for bit operations) + regenerated tables/automaton + model/implementation correspondence',
  'design_ref': 'DESIGN.md 6.6',
- 'n_quick': 2500,
+ 'n_quick': 3200,
  'n_thorough': 40000,
  'shard': 250,
  'level': 'proof',
@@ -58,5 +59,7 @@ PROP = {
                   HARNESS],
  'assumptions': ['colours are opaque (alpha = 255)',
                  'numeric parameters have at most 19 digits (longer ones belong to C02)',
+                 'C06_semantics_wf: every SGR parameter is completely defined by the standards (sgr_wf: no truncated / out-of-range colour '
+                 'specification, no undefined sub-parameter) and none of 7/27/39/49 occurs',
                  'text consists of Unicode scalar values other than ESC'],
 }
